@@ -11,7 +11,6 @@ import (
 	"io"
 	"os"
 	"path/filepath"
-	"sort"
 	"strings"
 	"sync"
 	"time"
@@ -374,28 +373,7 @@ func (cs *c21Case) unexpected(format string, a ...any) {
 
 // learnVids assigns ordinals to version ids not seen before, in ULID (= creation) order, reading
 // the INNER storage directly (going through the outbox storage would force a drain).
-func (cs *c21Case) learnVids() {
-	var fresh []string
-	for _, b := range []string{"b0", "b1"} {
-		res, err := cs.raw.ListObjectVersions(context.Background(), storage.MustNewBucketName("bkt-"+b), storage.ListObjectVersionsOptions{MaxKeys: 100000})
-		if err != nil {
-			continue
-		}
-		for _, v := range res.Versions {
-			if v.VersionID != "null" {
-				if _, ok := cs.s3.vids[v.VersionID]; !ok {
-					fresh = append(fresh, v.VersionID)
-				}
-			}
-		}
-	}
-	sort.Strings(fresh)
-	for _, v := range fresh {
-		if _, ok := cs.s3.vids[v]; !ok {
-			cs.s3.vids[v] = len(cs.s3.vids)
-		}
-	}
-}
+func (cs *c21Case) learnVids() { c21LearnVids(cs.raw, cs.s3.vids) }
 
 // nextEvent returns the worker's next event.
 func (cs *c21Case) nextEvent(d time.Duration) (c21Event, bool) {
@@ -610,26 +588,7 @@ func (cs *c21Case) dump() {
 	}
 	cs.learnVids()
 	cs.out.Line("dump")
-	cs.rawS3.exec("op lsb")
-	for _, b := range []string{"b0", "b1"} {
-		bn := storage.MustNewBucketName("bkt-" + b)
-		if _, err := cs.raw.HeadBucket(context.Background(), bn); err != nil {
-			continue
-		}
-		cs.rawS3.exec("op lsv " + b)
-		cs.rawS3.exec("op ls " + b)
-		res, err := cs.raw.ListObjectVersions(context.Background(), bn, storage.ListObjectVersionsOptions{MaxKeys: 100000})
-		if err != nil {
-			continue
-		}
-		for _, v := range res.Versions {
-			if v.IsDeleteMarker {
-				continue
-			}
-			vid := v.VersionID
-			cs.rawS3.exec(fmt.Sprintf("op get %s %s vid=%s", b, v.Key.String(), cs.s3.vidOut(&vid)))
-		}
-	}
+	c21DumpInner(cs.raw, cs.rawS3, cs.s3)
 }
 
 // ---------------------------------------------------------------- lanes
@@ -770,7 +729,10 @@ func runC21(args []string) {
 	f := verifx.ParseFlags("c21", args, 260, 3000)
 	out := verifx.NewOut()
 	directed := c21Directed()
-	total := len(directed) + f.Cases
+	single := len(directed) + f.Cases
+	// lease-mode cases (two instances, slow replays, heartbeats) come after the single-worker ones
+	nLease := 2 + f.Cases/5
+	total := single + nLease
 	results := make([][]byte, total)
 	const lanes = 8
 	var wg sync.WaitGroup
@@ -785,7 +747,13 @@ func runC21(args []string) {
 					continue
 				}
 				seed := verifx.CaseSeed(f.Seed, k)
-				if k < len(directed) {
+				if k >= single {
+					d := k - single
+					if d > 1 {
+						d = -1
+					}
+					results[k] = lane.runLeaseCase(k, seed, d)
+				} else if k < len(directed) {
 					results[k] = lane.runCase(k, seed, directed[k], 0)
 				} else {
 					ops := 14 + int(seed%22)
